@@ -860,8 +860,10 @@ pub mod client {
                 _ => {}
             }
 
-            let validity_period = x509.validity().not_after - x509.validity.not_before;
-            if !matches!(validity_period, Some(x) if x <= Self::SELF_MAX_VALIDITY) {
+            // `not_before <= now <= not_after` holds here, so the period is never negative
+            let validity_period =
+                x509.validity().not_after.to_datetime() - x509.validity().not_before.to_datetime();
+            if validity_period > Self::SELF_MAX_VALIDITY {
                 return Err(rustls::CertificateError::UnknownIssuer.into());
             }
 
